@@ -93,7 +93,7 @@ func (g *Generator) handleStruct(paramType ast.Expr, paramTypeName string, name 
 }
 
 func (g *Generator) handleIdent(paramType *ast.Ident, name *ast.Ident, file *ast.File, methodName string) {
-	if isStructType(paramType.Name, file) {
+	if g.isPkgStructType(paramType.Name, file) {
 		g.setBodyParamName(methodName, name.Name)
 		g.handleStruct(paramType, paramType.Name, name, methodName)
 	} else {
@@ -102,6 +102,19 @@ func (g *Generator) handleIdent(paramType *ast.Ident, name *ast.Ident, file *ast
 		}
 		g.data.QueryParamsMap[methodName] = append(g.data.QueryParamsMap[methodName], name.Name) //basic type
 	}
+}
+
+// isPkgStructType reports whether name is declared as a struct type in file or in any other file of the package.
+func (g *Generator) isPkgStructType(name string, file *ast.File) bool {
+	if isStructType(name, file) {
+		return true
+	}
+	for _, f := range g.Pkg().Syntax {
+		if f != file && isStructType(name, f) {
+			return true
+		}
+	}
+	return false
 }
 
 func (g *Generator) handleMapType(name *ast.Ident, methodName string, httpMethod string) {
